@@ -115,8 +115,8 @@ func VerifC14_LegacyClient() {
 	verifBodyBytes = []byte("{" + rest)
 	w := &verifRecorder{hdr: http.Header{}}
 	r := verifRequest("POST", "/client")
+	r.Header.Set("Snowflake-NAT-Type", verifNATHeader) // the real net/http header map (canonical keys)
 	if verifapi.Native() {
-		r.Header.Set("Snowflake-NAT-Type", verifNATHeader)
 		r.Body = io.NopCloser(strings.NewReader(string(verifBodyBytes)))
 	}
 	SnowflakeHandler{i, clientOffers}.ServeHTTP(w, r)
@@ -128,6 +128,7 @@ func VerifC14_LegacyClient() {
 	} else {
 		verifapi.Cover("legacy: invalid NAT header")
 		verifapi.Assert(w.status >= 400, "a legacy request the versioned path rejects is answered with an error status")
+		verifapi.Assert(w.status != http.StatusServiceUnavailable && w.status != http.StatusGatewayTimeout, "a rejected legacy request is not reported as 'no proxies' or 'timed out' (it is treated like its versioned equivalent)")
 	}
 }
 
